@@ -31,7 +31,8 @@ Sel(s, P(_)) == SelectSeq(s, P)
 
 (* ------------------------------------------------------------------------------------ harness-owned user functions *)
 F(x) == 10 * x
-G(x) == IF x % 2 = 1 THEN <<10 * x, 10 * x + 1>> ELSE <<10 * x>>
+\* the FMap arrow: nothing for multiples of 3, two values for the other odd numbers, one value otherwise
+G(x) == IF x % 3 = 0 THEN <<>> ELSE IF x % 2 = 1 THEN <<10 * x, 10 * x + 1>> ELSE <<10 * x>>
 EmitVal(i) == 100 + i
 StepFn(step, s) == CASE step = "double" -> (2 * s) % 1009 [] step = "const" -> s [] OTHER -> s + 1
 Bit(a, k) == (a \div k) % 2
